@@ -17,6 +17,7 @@ import (
 	"verif/mc/model"
 
 	"github.com/goreleaser/nfpm/v2"
+	yaml "gopkg.in/yaml.v3"
 )
 
 // C17Case is one document (or the published-file comparison) judged against the schema.
@@ -556,6 +557,10 @@ func enumC17(env *engine.Env, yield func(any) bool) {
 	if !yield(C17Case{Part: "schema-paths"}) {
 		return
 	}
+	// the example configurations of the documentation, as written
+	if !yield(C17Case{Part: "docs-example"}) {
+		return
+	}
 	// an undefined key at every mapping level: the parser's verdict and the schema's must agree (both reject)
 	_, levels := configShape()
 	for _, lv := range levels {
@@ -810,6 +815,43 @@ func checkC17(env *engine.Env, ci any) engine.Outcome {
 			}
 			viol("schema:undefined-key-verdicts-differ:"+lvl, "an undefined key at level %s: %s\n%s", lvl, who, fixture.Doc(d).YAML())
 		}
+	case "docs-example":
+		b, err := os.ReadFile(filepath.Join(env.Repo, "www/docs/configuration.md"))
+		if err != nil {
+			out.HarnessError = err.Error()
+			return out
+		}
+		n := 0
+		for i, blk := range regexp.MustCompile("(?s)```yaml\n(.*?)```").FindAllStringSubmatch(string(b), -1) {
+			text := blk[1]
+			if !strings.Contains(text, "name:") || !strings.Contains(text, "version:") {
+				continue // a fragment, not a whole configuration
+			}
+			_, perr := nfpm.ParseWithEnvMapping(strings.NewReader(text), func(string) string { return "" })
+			var generic map[string]any
+			if yerr := yaml.Unmarshal([]byte(text), &generic); yerr != nil {
+				out.HarnessError = "documentation example is not YAML: " + yerr.Error()
+				return out
+			}
+			jv, jerr := toJSONValue(generic)
+			if jerr != nil {
+				out.HarnessError = jerr.Error()
+				return out
+			}
+			var serrs, unsup []string
+			sc.validate(sc.root, jv, "", &serrs, &unsup)
+			n++
+			out.Transitions++
+			if perr == nil && len(serrs) > 0 {
+				sortStrings(serrs)
+				viol("schema:rejects-documented-example", "the example configuration #%d of configuration.md is accepted by the parser but rejected by the schema (%d reasons): %s", i, len(serrs), strings.Join(serrs[:min(len(serrs), 12)], "; "))
+			}
+			if perr != nil {
+				viol("schema:documented-example-not-parsed", "the example configuration #%d of configuration.md is rejected by the parser: %v", i, perr)
+			}
+		}
+		out.Nontrivial = n > 0
+		out.Key = fmt.Sprintf("docs-example:%d", n)
 	case "schema-paths":
 		sp := map[string]bool{}
 		sc.paths(sc.root, nil, sp, 0)
